@@ -1,6 +1,6 @@
 (* C10 — pinned statements. Nothing but statements, [exact] and Print Assumptions. *)
 From Coq Require Import List NArith Bool.
-From MV Require Import C10.Model C10.Spec C10.Fields C10.Keyed.
+From MV Require Import C10.Model C10.Spec C10.Fields C10.Keyed C10.Roots C10.Spin C10.Worker C10.Guards.
 Import ListNotations.
 Local Open Scope N_scope.
 
@@ -52,7 +52,6 @@ Example c10_example_run :
 Proof. vm_compute. reflexivity. Qed.
 
 (* ---------------------------------------------------------------- the worker loop as found (before the fix) *)
-From MV Require Import C10.Roots C10.Spin.
 
 (* REFUTATION of "its thread terminates once its last handle is dropped" for worker.rs as found
    (recv_timeout's Err(Disconnected) handled like a timeout): under no schedule does the thread return ... *)
@@ -70,3 +69,124 @@ Theorem c10_worker_spins_before_fix : forall h sh n s,
              w_trace s' = w_trace s ++ repeat TFlushTimed n.
 Proof. exact worker_v0_spins. Qed.
 Print Assumptions c10_worker_spins_before_fix.
+
+(* ---------------------------------------------------------------- the worker sink (any loop variant unless stated) *)
+
+(* FIFO: under every schedule, the messages processed so far are exactly the first ones enqueued, in
+   order; the others are still in the channel: nothing is lost, duplicated or reordered. *)
+Theorem c10_worker_fifo : forall fixed h sh t0 ls s, wrun fixed h sh (w_init t0) ls = Some s ->
+  w_sent s = tev_msgs (w_trace s) ++ w_chan s.
+Proof. exact worker_fifo. Qed.
+Print Assumptions c10_worker_fifo.
+
+(* What is enqueued is what the clients did: sends, flush requests, and for every dropped guard the last
+   value written to it (creation or DerefMut mutation), in schedule order. *)
+Theorem c10_worker_sent_history : forall fixed h sh t0 ls s,
+  wrun fixed h sh (w_init t0) ls = Some s -> w_sent s = whistory [] ls.
+Proof. exact worker_sent_history. Qed.
+Print Assumptions c10_worker_sent_history.
+
+(* Conservation through the worker: the inner tree satisfies the conservation promise for the history of
+   calls the thread made, and every entry ever sent is in a completed epoch, or held, or still queued. *)
+Theorem c10_worker_conservation : forall fixed h sh t0 ls s,
+  tree_empty t0 -> wrun fixed h sh (w_init t0) ls = Some s ->
+  tree_ok sh (trace_ops s) (w_inner s) /\
+  msg_entries (w_sent s)
+  = concat (complete_epochs (trace_ops s)) ++ open_epoch (trace_ops s) ++ msg_entries (w_chan s).
+Proof. exact worker_conservation. Qed.
+Print Assumptions c10_worker_conservation.
+
+(* Flush barrier: an acknowledged flush request id was served by a flush call before which exactly the
+   messages enqueued before the request had been processed (m1 is that prefix, whichever way the history
+   is split at the request), after which nothing was held, and whose epochs stay completed. *)
+Theorem c10_flush_barrier : forall fixed h sh t0 ls s id,
+  wrun fixed h sh (w_init t0) ls = Some s -> In id (w_acks s) ->
+  exists t1 t2,
+    w_trace s = t1 ++ TFlushMsg id :: t2 /\
+    (forall m1 m2, w_sent s = m1 ++ MFlush id :: m2 -> m1 = tev_msgs t1) /\
+    open_epoch (map tev_op (t1 ++ [TFlushMsg id])) = [] /\
+    complete_epochs (trace_ops s)
+    = complete_epochs (map tev_op (t1 ++ [TFlushMsg id])) ++ complete_epochs (map tev_op t2).
+Proof. exact worker_flush_barrier. Qed.
+Print Assumptions c10_flush_barrier.
+
+(* The worker is never blocked for good: while the thread runs, one of its actions is enabled. *)
+Theorem c10_worker_progress : forall fixed h sh s, w_exited s = false ->
+  exists l, is_worker l = true /\ wstep fixed h sh s l <> None.
+Proof. exact worker_progress. Qed.
+Print Assumptions c10_worker_progress.
+
+(* Worker exit (repaired loop).  With no handle left, under every schedule the worker takes at most
+   |channel| + 1 further steps (no spinning) ... *)
+Theorem c10_worker_exit_bound : forall h sh ls s s',
+  wrun true h sh s ls = Some s' -> w_senders s = 0%nat -> w_exited s = false ->
+  (count_worker ls <= length (w_chan s) + 1)%nat /\
+  (count_worker ls = (length (w_chan s) + 1)%nat ->
+     w_exited s' = true /\ w_chan s' = [] /\ w_sent s' = w_sent s /\
+     exists t, w_trace s' = t ++ [TFlushTimed]).
+Proof. exact worker_exit_bound. Qed.
+Print Assumptions c10_worker_exit_bound.
+
+(* ... and having taken them, from any reachable state: the thread has returned (inner sink dropped),
+   nothing was lost, every entry ever sent is in a completed flush epoch of the inner tree, nothing is
+   held, and the tree satisfies the conservation promise. *)
+Theorem c10_worker_exit : forall h sh t0 ls s ls2 s',
+  tree_empty t0 ->
+  wrun true h sh (w_init t0) ls = Some s -> w_senders s = 0%nat -> w_exited s = false ->
+  wrun true h sh s ls2 = Some s' -> count_worker ls2 = (length (w_chan s) + 1)%nat ->
+  w_exited s' = true /\ w_chan s' = [] /\ w_sent s' = w_sent s /\
+  msg_entries (w_sent s') = concat (complete_epochs (trace_ops s')) /\
+  open_epoch (trace_ops s') = [] /\
+  tree_ok sh (trace_ops s') (w_inner s').
+Proof. exact worker_exit_all_emitted. Qed.
+Print Assumptions c10_worker_exit.
+
+(* ---------------------------------------------------------------- the mutex sink and guards *)
+(* Every close returns the aggregate of exactly the entries merged since the previous close (guards
+   contributing the last value written to them, at their drop), for every interleaving of the critical
+   sections; what is held is the aggregate of the open epoch. *)
+Theorem c10_mutex_conservation : forall sh ls s, mrun sh (m_init sh) ls = Some s ->
+  let hist := mhistory [] ls in
+  m_closed s = map (fun ep => close_acc (acc_of sh ep)) (complete_epochs hist) /\
+  Forall2 (agg_ok sh) (complete_epochs hist) (m_closed s) /\
+  m_log s = open_epoch hist /\
+  embedded_ok sh (open_epoch hist) (m_acc s).
+Proof. exact mutex_conservation. Qed.
+Print Assumptions c10_mutex_conservation.
+
+(* A guard is merged at most once. *)
+Theorem c10_guard_once : forall sh ls1 g ls2 s,
+  mrun sh (m_init sh) (ls1 ++ MGDrop g :: ls2) = Some s -> dropped g (map m_gact ls1) = false.
+Proof. exact mutex_guard_once. Qed.
+Print Assumptions c10_guard_once.
+
+(* non-vacuity: a schedule with a guard mutated before its drop, an acknowledged flush, interleaved
+   worker steps, the last handle dropped, and the worker's last |channel|+1 steps *)
+Example c10_example_worker :
+  let e1 := mkE 1 ([97], 0) [1] [Some 1] [[3]] in
+  let e2 := mkE 2 ([98], 0) [2] [Some 2] [[1]] in
+  let e3 := mkE 3 ([97], 0) [6] [Some 3] [[3]] in
+  let ls := [GNew e1; HSend e2; WRecv false; GSet 0 e3; HFlush 7; GDrop 0; HDrop; WRecv false; HDrop] in
+  match wrun true (fun _ => 0) (mkS 1 1 1) (w_init (SKeyed KFull [] [])) ls with
+  | Some s =>
+      w_acks s = [7] /\ w_senders s = 0%nat /\ w_exited s = false /\ length (w_chan s) = 1%nat /\
+      match wrun true (fun _ => 0) (mkS 1 1 1) s [WRecv false; WDisc] with
+      | Some s' => w_exited s' = true /\
+                   w_inner s' = SKeyed KFull []
+                     [[(([98], 0), mkC [2] [Some 2] [[(1, 1)]])];
+                      [(([97], 0), mkC [6] [Some 3] [[(3, 1)]])]]
+      | None => False
+      end
+  | None => False
+  end.
+Proof. vm_compute. repeat split; reflexivity. Qed.
+
+Example c10_example_mutex :
+  let e1 := mkE 1 ([], 0) [1] [Some 1] [[3]] in
+  let e2 := mkE 2 ([], 0) [2] [Some 2] [[1]] in
+  let e3 := mkE 3 ([], 0) [6] [Some 3] [[3]] in
+  match mrun (mkS 1 1 1) (m_init (mkS 1 1 1)) [MGNew e1; MMerge e2; MGSet 0 e3; MGDrop 0; MClose; MMerge e1] with
+  | Some s => m_closed s = [mkC [8] [Some 3] [[(1, 1); (3, 1)]]] /\ m_log s = [e1]
+  | None => False
+  end.
+Proof. vm_compute. split; reflexivity. Qed.
